@@ -114,22 +114,23 @@ class Seq:
     """op in fm|fmv|uf|mg|pt; params: list of strings; rounds: list of (observed, input) where input is a
     dict (or a pair of dicts for mg)"""
 
-    def __init__(self, ty, op, params, rounds):
+    def __init__(self, ty, op, params, rounds, nocut=False):
         self.ty, self.op, self.params, self.rounds = ty, op, params, rounds
+        self.nocut = nocut          # the input variables never cut off: the operator also recomputes on an equal input
 
     def show_in(self, x):
         return show_map(x[0]) + "/" + show_map(x[1]) if self.op == "mg" else show_map(x)
 
     def harness_line(self):
         toks = [("+" if o else "-") + self.show_in(x) for o, x in self.rounds]
-        return " ".join([self.ty, self.op] + self.params + toks)
+        return " ".join([self.ty + ("!" if self.nocut else ""), self.op] + self.params + toks)
 
     def step_rounds(self):
         """rounds in which the operator's closure runs: observed and input differs from the input of the
         previous run (the var's PartialEq cutoff), or first observed round"""
         steps, last = [], None
         for i, (o, x) in enumerate(self.rounds):
-            if o and (last is None or x != last):
+            if o and (last is None or x != last or self.nocut):
                 steps.append(i)
                 last = x
         return steps
@@ -218,7 +219,7 @@ def gen_seq(rng, op, ty, nkeys=5, nvals=4, maxrounds=8, unobserve=True):
         params = [str(rng.choice([0, 1, 2]))]
     else:
         params = [str(rng.choice([0, 1]))]
-    return Seq(ty, op, params, rounds)
+    return Seq(ty, op, params, rounds, nocut=rng.random() < 0.3)
 
 
 OP_TYPES = {
